@@ -20,6 +20,7 @@ import (
 func init() {
 	register("min-cases", cmdMinCases)
 	register("reach-cases", cmdReachCases)
+	register("draw-cases", cmdDrawCases)
 }
 
 type mcond interface {
@@ -292,6 +293,174 @@ func cmdReachCases(args []string) {
 	}
 	b.WriteString("].\n")
 	fmt.Fprintf(&b, "Definition %s_M := Eval vm_compute in reach_mismatches %s.\nPrint %s_M.\n", *name, *name, *name)
+	if err := os.WriteFile(*out, []byte(b.String()), 0o644); err != nil {
+		die("write: %v", err)
+	}
+	js, _ := json.Marshal(map[string]any{"cases": *n, "stats": stats})
+	fmt.Println(string(js))
+}
+
+// selector words from all over the 53-bit range: uniform, the top few percent (where the biased draw overflows to the
+// maximum of the range), and the words at which genGeom()+1 steps past the bit length of the range
+func selectorWord(r *Rng, bitlen int) uint64 {
+	const top = uint64(1) << 53
+	switch r.intn(5) {
+	case 0:
+		return r.next() >> 11
+	case 1:
+		return top - 1 - (r.next()>>11)%(top>>5)
+	case 2:
+		return top - 1 - uint64(r.intn(1000))
+	case 3:
+		n := uint64(bitlen + r.intn(4))
+		if n == 0 {
+			n = 1
+		}
+		if k, ok := leastK(bitlen, n); ok {
+			d := uint64(r.intn(3))
+			if r.chance(50) && k >= d {
+				return k - d
+			}
+			if k+d < top {
+				return k + d
+			}
+			return k
+		}
+		return top - 1
+	}
+	thr := uint64(64 - (16-int(math.Max(8, float64((bitlen+48)/7))))*4)
+	if k, ok := leastK(bitlen, thr+uint64(r.intn(3))); ok {
+		return k
+	}
+	return top - 1
+}
+
+func cmdDrawCases(args []string) {
+	fs := flag.NewFlagSet("draw-cases", flag.ExitOnError)
+	n := fs.Int("n", 400, "cases")
+	seed := fs.Uint64("seed", 1, "generator seed")
+	out := fs.String("out", "", "output .v file")
+	name := fs.String("name", "dr", "name prefix")
+	_ = fs.Parse(args)
+	r := &Rng{s: *seed*15485863 + 3}
+	var b strings.Builder
+	b.WriteString("From Coq Require Import List NArith ZArith.\nImport ListNotations.\n")
+	b.WriteString("Require Import Rapid.Model.Base Rapid.Model.CorrValues.\nLocal Open Scope N_scope.\n")
+	fmt.Fprintf(&b, "Definition %s : list draw_case := [\n", *name)
+	stats := map[string]int{}
+	coqList := func(ws []uint64) string {
+		s := make([]string, len(ws))
+		for i, w := range ws {
+			s[i] = fmt.Sprint(w)
+		}
+		return "[" + strings.Join(s, "; ") + "]"
+	}
+	for i := 0; i < *n; i++ {
+		sep := ";"
+		if i == *n-1 {
+			sep = ""
+		}
+		x := word(r)
+		if r.chance(30) {
+			x = r.next()
+		}
+		short := r.chance(4) // a stream that ends early: the draw runs out of data
+		if r.chance(50) {
+			a, c := int64(word(r)), int64(word(r))
+			switch r.intn(6) {
+			case 0:
+				a = math.MinInt64 + int64(r.intn(2))
+			case 1:
+				c = math.MaxInt64 - int64(r.intn(2))
+			case 2:
+				a, c = math.MinInt64, int64(r.intn(2))-1
+			case 3:
+				a, c = math.MinInt64+int64(r.intn(2)), math.MaxInt64-int64(r.intn(2))
+			}
+			if a > c {
+				a, c = c, a
+			}
+			var side uint64 // width of the side that the sign word selects
+			sign := r.next() >> 11
+			neg := a < 0 && (c <= 0 || sign >= 1<<52)
+			switch {
+			case a >= 0:
+				side = uint64(c) - uint64(a)
+			case c <= 0:
+				side = uint64(-a) - uint64(-c)
+			case neg:
+				side = uint64(-a) - 1
+			default:
+				side = uint64(c)
+			}
+			stream := []uint64{sign, selectorWord(r, bits.Len64(side)), x}
+			if short {
+				stream = stream[:1+r.intn(2)]
+			}
+			var got int64
+			g := rapid.Int64Range(a, c)
+			e, _ := rapid.VerifRunBuf(nil, stream, false, func(t *rapid.T) { got = g.Draw(t, "v") })
+			res := fmt.Sprintf("(Some (%d)%%Z)", got)
+			if e.Kind != "" {
+				res = "None"
+				stats["outcome_"+e.Kind]++
+			} else {
+				if got == a {
+					stats["returned_min"]++
+				}
+				if got == c {
+					stats["returned_max"]++
+				}
+			}
+			stats["signed"]++
+			if bits.Len64(side) == 64 {
+				stats["side_of_64_bits"]++
+			}
+			fmt.Fprintf(&b, "  mkDraw %d true (%d) (%d) %s %s%s\n", i, a, c, coqList(stream), res, sep)
+		} else {
+			a, c := word(r), word(r)
+			switch r.intn(6) {
+			case 0:
+				a = uint64(r.intn(2))
+			case 1:
+				c = math.MaxUint64 - uint64(r.intn(2))
+			case 2:
+				a, c = uint64(r.intn(2)), math.MaxUint64-uint64(r.intn(2))
+			case 3:
+				a, c = r.next()>>1, math.MaxUint64
+			}
+			if a > c {
+				a, c = c, a
+			}
+			stream := []uint64{selectorWord(r, bits.Len64(c-a)), x}
+			if short {
+				stream = stream[:r.intn(2)]
+			}
+			var got uint64
+			g := rapid.Uint64Range(a, c)
+			e, _ := rapid.VerifRunBuf(nil, stream, false, func(t *rapid.T) { got = g.Draw(t, "v") })
+			res := fmt.Sprintf("(Some (%d)%%Z)", got)
+			if e.Kind != "" {
+				res = "None"
+				stats["outcome_"+e.Kind]++
+			} else {
+				if got == a {
+					stats["returned_min"]++
+				}
+				if got == c {
+					stats["returned_max"]++
+				}
+			}
+			stats["unsigned"]++
+			if bits.Len64(c-a) == 64 {
+				stats["side_of_64_bits"]++
+			}
+			fmt.Fprintf(&b, "  mkDraw %d false (%d) (%d) %s %s%s\n", i, a, c, coqList(stream), res, sep)
+		}
+		stats["cases"]++
+	}
+	b.WriteString("].\n")
+	fmt.Fprintf(&b, "Definition %s_M := Eval vm_compute in draw_mismatches %s.\nPrint %s_M.\n", *name, *name, *name)
 	if err := os.WriteFile(*out, []byte(b.String()), 0o644); err != nil {
 		die("write: %v", err)
 	}
